@@ -97,6 +97,19 @@ Ltac gate_sqrt_nz :=
       [ clear Hz | exfalso; apply Hz; apply sqrt_lt_R0; nra ]
   end.
 
+(* the same, restricted to the three-term norms of the samples (decided from the nz3 hypotheses by lra) *)
+Ltac gate_sqrt_nz3 :=
+  match goal with
+  | |- context [Req_EM_T 0 (sqrt (?a*?a + ?b*?b + ?c*?c))] =>
+      let Hz := fresh "Hz" in
+      destruct (Req_EM_T 0 (sqrt (a*a + b*b + c*c))) as [Hz|Hz];
+      [ exfalso; symmetry in Hz; apply sqrt_eq_0 in Hz; [lra|lra] | clear Hz ]
+  | |- context [Rlt_dec 0 (sqrt (?a*?a + ?b*?b + ?c*?c))] =>
+      let Hz := fresh "Hz" in
+      destruct (Rlt_dec 0 (sqrt (a*a + b*b + c*c))) as [Hz|Hz];
+      [ clear Hz | exfalso; apply Hz; apply sqrt_lt_R0; lra ]
+  end.
+
 (* goal: qnorm2 [a/s; b/s; c/s; d/s] = 1 with s = sqrt (sum of squares): reduce to  0 < sum of squares *)
 Ltac unit_by_norm :=
   match goal with
